@@ -198,7 +198,8 @@ def family_c13(chk):
                  ('bind', 'x', None, (op, ('not', X), P[0])), ('exists', 'x', None, (op, ('EF', X), W)),
                  ('not', (op, ('true',), P[0])), (op, P[0], ('false',)), (op, (op, P[0], P[1]), W),
                  ('forall', 'x', 'd', (op, ('or', X, P[0]), ('AX', X)))]
-    core += [('iff', ('EW', P[0], P[1]), ('or', ('EU', P[0], P[1]), ('EG', P[0]))),
+    core += [('and', ('EW', P[0], P[1]), ('not', ('AW', P[0], P[1]))), ('or', ('AW', W, P[0]), ('and', ('EW', W, P[0]), ('EU', W, P[0]))), ('bind', 'x', None, ('and', ('EW', X, P[0]), ('not', ('AW', X, P[0])))),
+             ('iff', ('EW', P[0], P[1]), ('or', ('EU', P[0], P[1]), ('EG', P[0]))),
              ('iff', ('AW', W, P[1]), ('not', ('EU', ('not', P[1]), ('and', ('not', W), ('not', P[1])))))]
     rnd = []
     nr = 40 if thorough else 10
